@@ -173,6 +173,13 @@ def run(ctx):
             d = {"id": "identical-%s-%s" % (g1, g2), "plugins": [{"name": "p1", "hs": "ok", "gen": g1, "bye": "ok"}, {"name": "p2", "hs": "ok", "gen": g2, "bye": "ok"}]}
             cases.append(expand(d, "inproc", rng))
             cases.append(expand(d, "cli", rng))
+        # a reply frame whose length prefix has the top bit set
+        for f in ("neglen", "neglen2"):
+            for step in ("hs", "gen"):
+                d = {"id": "neglen-%s-%s" % (f, step), "plugins": [{"name": "p1", "hs": f if step == "hs" else "ok", "gen": f if step == "gen" else "ok", "bye": "ok"},
+                                                                     {"name": "p2", "hs": "ok", "gen": "ok", "bye": "ok"}]}
+                cases.append(expand(d, "inproc", rng))
+                cases.append(expand(d, "cli", rng))
         # a handshake that is well-formed but names another API version, newer or older
         for f in ("wrongversion", "olderversion", "zeroversion", "negversion"):
             for others in ([], [{"name": "p2", "hs": "ok", "gen": "ok", "bye": "ok"}]):
